@@ -8,10 +8,10 @@ claim('C14',
       "contract-based deductive verification: path-exhaustive symbolic execution of the real functions over z3 proxies, "
       "sidecar contracts, loop invariants, z3/cvc5 discharge", "DESIGN.md 3 C14")
 claim('C12',
-      "The real assist() is executed over an arbitrary ASCII cursor line (index-quantified string model): on every return site "
+      "The real assist() is executed over an arbitrary cursor line of Unicode text (index-quantified string model; non-ASCII letters through an uninterpreted word-character predicate): on every return site "
       "the prefix is proved to be the longest identifier run left of the cursor; an arbitrary table key is followed to the "
       "proposal list (sorted, marker-free); unmark/marked/split_pkg/join_pkg/Source.__init__ are proved against their contracts.",
-      "ASCII lines; `re` through a translator for single-character-class patterns; str methods by their documented semantics; "
+      "`re` through a translator for single-character-class patterns (\\w assumed to coincide with identifier characters on non-ASCII code points); str methods by their documented semantics; "
       "the parser relates the marked identifier to the cursor line (assumed); whole-pipeline mark transparency for the attribute "
       "case is not decided (DESIGN 7).",
       "contract-based deductive verification: symbolic execution of the real functions over index-quantified strings, z3 (E-matching + MBQI)",
